@@ -253,8 +253,18 @@ func (c *Ctx) evalDecoderFrom(from *ai.State, write bool, lo, hi int, setup func
 		}
 		args = append(args, value)
 	}
+	it.Hooks = c.observeHooks(ev)
+	res, post := it.CallFunction(st, fn, args, nil)
+	it.Hooks = ai.Hooks{}
+	ev.Result, ev.Post = res, post
+	return ev
+}
+
+// observeHooks returns hooks that record everything an evaluation does into ev.
+func (c *Ctx) observeHooks(ev *DecEval) ai.Hooks {
+	it := c.W.It
 	depth0 := len(it.Stack)
-	it.Hooks = ai.Hooks{
+	return ai.Hooks{
 		Call: func(_ *ai.State, at ssa.Instruction, callee *ssa.Function, _ []ai.Value) {
 			ev.Callees = append(ev.Callees, callee)
 			if len(it.Stack) == depth0+1 {
@@ -319,10 +329,6 @@ func (c *Ctx) evalDecoderFrom(from *ai.State, write bool, lo, hi int, setup func
 			}
 		},
 	}
-	res, post := it.CallFunction(st, fn, args, nil)
-	it.Hooks = ai.Hooks{}
-	ev.Result, ev.Post = res, post
-	return ev
 }
 
 // handlerSig identifies the code an address class reaches.
